@@ -40,6 +40,7 @@ package c19
 import (
 	"fmt"
 	"os"
+	"slices"
 	"sort"
 	"testing"
 
@@ -788,7 +789,7 @@ func checkFourmer(c fourmerCase) error {
 				if int(counts[code]) != wcount[code] {
 					return fmt.Errorf("Count4Mer, %s: 4-mer %d counted %d times, occurs %d times", what, code, counts[code], wcount[code])
 				}
-				if fmt.Sprint(idx[code]) != fmt.Sprint(wpos[code]) && (len(idx[code]) > 0 || len(wpos[code]) > 0) {
+				if !slices.Equal(idx[code], wpos[code]) {
 					return fmt.Errorf("Index4mer, %s: positions of 4-mer %d are %v, it occurs at %v", what, code, idx[code], wpos[code])
 				}
 			}
